@@ -132,6 +132,17 @@ func universe(c Config) (keys []Key, probes []Key) {
 		keys = append(keys, mk("K3", B, suf(8)))
 	}
 	keys = append(keys, mk("K4", B2, suf(1)))
+	// K5 = K0 with a bit set in the byte that is only partly covered by the
+	// bucket bits (when the bit size is not a multiple of 8): same bucket as
+	// K0, and the stored keys differ only in that straddling byte. For whole
+	// byte bit sizes it is simply a key of a third bucket.
+	k5 := mk("K5", B, suf(1))
+	k5d := append([]byte(nil), k5.Digest...)
+	k5d[nb-1] |= 0x10
+	if nb == 1 {
+		k5d[0] = 0x31
+	}
+	keys = append(keys, makeKey("K5", k5d, c.Primary == "cid"))
 	probes = []Key{
 		mk("P0", B, suf(3)),
 	}
@@ -174,6 +185,9 @@ type World struct {
 	// when set, a Put/Remove is allowed to lose against a concurrent op (A engine handles oracles itself)
 	ledger *Ledger
 	relocs int
+	// crashed: the world was recovered from a crash image (file tails may be
+	// torn; fsck group F0 does not apply).
+	crashed bool
 	// real: the world runs on the real file system under vos.SetRealRoot
 	// (shim-fidelity runs); FS is then an unused placeholder.
 	real bool
